@@ -434,6 +434,7 @@ class Normaliser:
                     collect(getattr(st, "finalbody", []), in_loop)
         collect(f.body, False)
         self._classify_helpers()
+        self._forgive_pure_helper_calls()
 
     def _mut(self, name, node, direct=True):
         self.mut_sites.setdefault(name, set()).add(id(node))
@@ -521,6 +522,17 @@ class Normaliser:
                 tails = {id(x.value) for x in ast.walk(f) if isinstance(x, ast.Return) and x.value is not None}
                 if all(id(c) in tails for c in calls):
                     self.tail_helpers[name] = (d, body)
+
+    def _forgive_pure_helper_calls(self):
+        """an argument handed to a local helper that is a single side-effect free expression is not changed by the call"""
+        for name, (params, expr) in list(self.expr_helpers.items()):
+            if name not in self.local_defs or not is_pure(expr, self.groups):
+                continue
+            for c in ast.walk(self.f):
+                if isinstance(c, ast.Call) and isinstance(c.func, ast.Name) and c.func.id == name:
+                    for a_ in list(c.args) + [k.value for k in c.keywords]:
+                        if isinstance(a_, ast.Name):
+                            self.mut_sites.get(a_.id, set()).discard(id(c))
 
     # ------------------------------------------------------------------ naming
     def fresh(self, prefix="v"):
